@@ -37,6 +37,8 @@ def make_copy(slot):
 def apply_edits(d, m):
     for rp in m.get('revert', []):
         subprocess.check_call(['patch', '-R', '-p1', '-s', '-i', os.path.join(VERIF, rp)], cwd=d)
+    for fp in m.get('apply', []):
+        subprocess.check_call(['patch', '-p1', '-s', '-i', os.path.join(VERIF, fp)], cwd=d)
     for e in m['edits']:
         path = os.path.join(d, e[0])
         s = open(path).read()
@@ -77,17 +79,18 @@ def run_one(args):
 
 
 def validate_one(args):
+    """cargo test on a scratch copy with the mutant applied.  The copy lives at a per-slot path and its target
+    directory persists for the slot, so only the foca crate itself is rebuilt per mutant."""
     m, slot = args
-    d = make_copy(1000 + slot)
-    try:
-        apply_edits(d, m)
-        env = dict(os.environ, CARGO_NET_OFFLINE='true', CARGO_TARGET_DIR=os.path.join(d, 'target'))
-        r = subprocess.run(['cargo', 'test', '--workspace', '--no-fail-fast', '--offline'], cwd=d, env=env,
-                           stdout=subprocess.PIPE, stderr=subprocess.STDOUT, text=True)
-        lines = [l for l in r.stdout.splitlines() if l.startswith('test result') or 'FAILED' in l or l.startswith('error')]
-        return m['name'], {'exit': r.returncode, 'summary': lines[:12]}
-    finally:
-        shutil.rmtree(d, ignore_errors=True)
+    d = os.path.join(SCRATCH, 'v%d' % slot)
+    os.makedirs(d, exist_ok=True)
+    subprocess.check_call(['rsync', '-a', '--delete', '--exclude', 'target', '--exclude', '.git', REPO + '/', d + '/'])
+    apply_edits(d, m)
+    env = dict(os.environ, CARGO_NET_OFFLINE='true', CARGO_TARGET_DIR=os.path.join(d, 'target'))
+    r = subprocess.run(['cargo', 'test', '--workspace', '--no-fail-fast', '--offline'], cwd=d, env=env,
+                       stdout=subprocess.PIPE, stderr=subprocess.STDOUT, text=True)
+    lines = [l for l in r.stdout.splitlines() if l.startswith('test result') or 'FAILED' in l or l.startswith('error')]
+    return m['name'], {'exit': r.returncode, 'summary': lines[:12]}
 
 
 def main():
@@ -143,12 +146,24 @@ def main():
                         if os.environ.get('VERBOSE'):
                             print(r['out'])
     elif cmd == 'validate':
-        work = [(m, i) for i, m in enumerate(sel + seln)]
+        import threading
+        work = sel + seln
         results = {}
+        vslots = list(range(jobs))
+        vlock = threading.Lock()
+
+        def v_with_slot(m):
+            with vlock:
+                slot = vslots.pop()
+            try:
+                return validate_one((m, slot))
+            finally:
+                with vlock:
+                    vslots.append(slot)
         with cf.ThreadPoolExecutor(jobs) as ex:
-            for name, res in ex.map(validate_one, work):
+            for name, res in ex.map(v_with_slot, work):
                 results[name] = res
-                print('%-40s exit=%d %s' % (name, res['exit'], ' | '.join(res['summary'][:3])))
+                print('%-40s exit=%d %s' % (name, res['exit'], ' | '.join(res['summary'][:3])), flush=True)
         p = os.path.join(HERE, 'validated.json')
         old = json.load(open(p)) if os.path.exists(p) else {}
         old.update(results)
